@@ -90,6 +90,20 @@ def array_cases():
                 out.append(('eq', None, (
                     ('store', None, (a_sym, G.const_bp(it, k),
                                      G.const_bp(et, vs[-1]))), a)))
+    # array literals whose index sort is itself an array sort: two index
+    # literals can denote the same array and be different objects
+    BV1 = B.BV(1)
+    one, zero = B.BVc(1, 1), B.BVc(0, 1)
+    k1 = ('arrayval', BV1, (zero, zero, one, one, one))
+    k2 = ('arrayval', BV1, (one,))
+    k3 = ('arrayval', BV1, (one, zero, one))
+    k4 = ('arrayval', BV1, (zero, one, one))
+    AA = ('arrayval', B.ARR(BV1, BV1), (B.Int(0), k1, B.Int(5)))
+    for ka in (k1, k2, k3, k4):
+        out.append(('eq', None, (('select', None, (AA, ka)), B.Int(5))))
+        for kb in (k1, k2, k3):
+            out.append(('eq', None, (('select', None, (
+                ('store', None, (AA, kb, B.Int(7))), ka)), B.Int(7))))
     return out
 
 
@@ -178,6 +192,15 @@ class Checker(object):
 
         def fails(x):
             return self.judge_once(x, n_samples)[0] == kind
+        if kind == 'value' and any(
+                x[0] == 'arrayval' and x[1][0] == 'Array'
+                for x in B.subterms(b)):
+            # one mechanism (recorded): literals indexed by array literals
+            # are looked up by object identity
+            rep.violation('C01/simplify/value/array-literal-indexed-by-arrays',
+                          '%s: %s' % (kind, info), {'bp': B.to_json(b),
+                                                    'kind': kind})
+            return False
         key, m = self.sb.classify(PROP, 'simplify', kind, b, fails)
         what = info
         if m is not None and m is not b:
